@@ -80,6 +80,13 @@ def generate(prop, seed, tier='quick'):
         'entry': rng.choice(ENTRIES),
         'neighbours': [rng.randint(1, 60), rng.randint(1, 60)],
         'program': program,
+        # a second stream open at the same time on the same handle (the same object again, or its neighbour in the pack),
+        # stepped between the steps of the main program: every returned stream is an independent in-memory file
+        'companion': (
+            {'target': rng.choice(['same', 'same', 'neighbour']), 'program': gen_program(rng, max(1, length), rng.randint(2, 12))}
+            if rng.random() < 0.25
+            else None
+        ),
         'cleaner': rng.random() < 0.35,
         'clean_at': sorted(rng.sample(range(nsteps + 1), min(nsteps + 1, rng.randint(1, 3)))),
     }
@@ -232,12 +239,31 @@ def execute(case):  # pylint: disable=too-many-locals,too-many-statements,too-ma
                     cleaner = lib.Container(folder)
                 clean_at = set(case.get('clean_at', [])) if cleaner else set()
 
+                comp = case.get('companion')
+
                 def run_program(stream):
-                    for i, step in enumerate(case['program']):
-                        if i in clean_at:
-                            cleaner.clean_storage()
-                            probes['cleans'] += 1
-                        checker.run_step(stream, step, i)
+                    if comp:
+                        ckey = key if comp['target'] == 'same' else others[0]
+                        ccontent = content if comp['target'] == 'same' else b'\xaa' * case['neighbours'][0]
+                        cchecker = StreamChecker(ccontent, checker.label + f" companion={comp['target']}")
+                        with cont.get_object_stream(ckey) as cstream:
+                            csteps = comp['program']
+                            for i, step in enumerate(case['program']):
+                                if i in clean_at:
+                                    cleaner.clean_storage()
+                                    probes['cleans'] += 1
+                                if i < len(csteps):
+                                    cchecker.run_step(cstream, csteps[i], i)
+                                checker.run_step(stream, step, i)
+                            for j in range(len(case['program']), len(csteps)):
+                                cchecker.run_step(cstream, csteps[j], j)
+                        probes['companion_steps'] = len(cchecker.outcomes)
+                    else:
+                        for i, step in enumerate(case['program']):
+                            if i in clean_at:
+                                cleaner.clean_storage()
+                                probes['cleans'] += 1
+                            checker.run_step(stream, step, i)
                     if getattr(stream, '_use_uncompressed_stream', False):
                         probes['cache_used'] += 1
 
@@ -305,6 +331,7 @@ def execute(case):  # pylint: disable=too-many-locals,too-many-statements,too-ma
                     'out_of_range_seeks': sum(1 for o in checker.outcomes if o[0] in 'xo'),
                     'lowered_knobs': int(case.get('knobs') != DEFAULT_KNOBS),
                     'big_object': int(len(content) > 65536),
+                    'companion_stream_steps': probes.get('companion_steps', 0),
                 },
                 'kinds': dict(SIM.kinds),
             }
